@@ -444,9 +444,10 @@ func reachableVia(f *ssa.Function, from, via *ssa.BasicBlock, cut []edge) map[*s
 				continue
 			}
 			n := st{s, b, cur.via, cur.via2}
-			// history matters only while the blocks in between just merge values (phis and a jump)
+			// longer history matters only while the blocks in between just merge values (phis and a jump);
+			// one block more is always kept: a merged (bool, error) pair is tested in two consecutive blocks
 			if !passThrough(b) {
-				n.via2, n.via3 = nil, nil
+				n.via3 = nil
 			}
 			if !done[n] {
 				done[n] = true
@@ -2935,12 +2936,29 @@ func fieldSources(v ssa.Value) []ssa.Value {
 				}
 			}
 		}
-		for _, st := range storesTo(al) {
-			if ld, ok := st.Val.(*ssa.UnOp); ok && ld.Op == token.MUL {
+		// whole-struct stores: a load of another cell, or a merge of such (an inlined helper that returns the
+		// struct by value from several places)
+		seenPhi := map[*ssa.Phi]bool{}
+		var whole func(sv ssa.Value, d int)
+		whole = func(sv ssa.Value, d int) {
+			if d > 5 {
+				return
+			}
+			if ld, ok := sv.(*ssa.UnOp); ok && ld.Op == token.MUL {
 				if al2, ok := ld.X.(*ssa.Alloc); ok && al2 != al {
 					rec(al2, depth+1)
 				}
+				return
 			}
+			if ph, ok := sv.(*ssa.Phi); ok && !seenPhi[ph] {
+				seenPhi[ph] = true
+				for _, e := range ph.Edges {
+					whole(e, d+1)
+				}
+			}
+		}
+		for _, st := range storesTo(al) {
+			whole(st.Val, 0)
 		}
 	}
 	rec(al, 0)
